@@ -149,6 +149,9 @@ class Check:
                     want = [expand_bits(b, info[0], info[1], case["k"]) for b in want]
                 if "SUPPORT" in i[1]:
                     return ("violation", "result depends on variables outside its universe")
+                if "ENCODING" in i[1]:
+                    return ("violation", "result is not expressed in the expected symbolic encoding "
+                                         "(variable count differs / unusable with a graph built from the network)")
                 if want != got:
                     bad = [j for j in range(min(len(want), len(got))) if want[j] != got[j]]
                     return ("violation", "result differs from the specification (formula index %s)" % bad)
